@@ -53,6 +53,11 @@ let rec run_case (kind : string) (body : sexp list) : string * string =
                  | _, n -> Some (narg n)) in
       let sts = List.map fstim_of (args (List.nth body 3)) in
       (show_fouts (run_flatten lim sts), "UNSPECIFIED")
+  | "timed" ->
+      (* (timed FORM OP (labels ...)) *)
+      let o = top_of (List.nth body 1) in
+      let ls = List.map tlab_of (args (List.nth body 2)) in
+      (show_touts (run_timed o ls), "UNSPECIFIED")
   | k -> failwith ("unknown case kind " ^ k)
 
 let gev_of (s : sexp) : gev =
@@ -105,6 +110,23 @@ let oracle (kind : string) (body : sexp list) (impl : string) : string option =
       else if not (completion_ok lim (List.map fstim_of (args (List.nth body 3))) out)
         then Some "reject:completion not exactly when the outer and all inner observables have completed, or a waiting inner observable not started although a slot is free"
       else Some "ok"
+  | "timed" ->
+      if String.length impl >= 5 && String.sub impl 0 5 = "PANIC" then Some "reject:panic" else
+      let o = top_of (List.nth body 1) in
+      let ls = List.map tlab_of (args (List.nth body 2)) in
+      let tout_of (s : sexp) : tout =
+        match s with
+        | List [Atom "t"; at; e] -> TOut (narg_n at, ev_of e)
+        | List [Atom "rb"; Atom "#t"] -> TRet true
+        | List [Atom "rb"; Atom "#f"] -> TRet false
+        | List [Atom "ran"; t; seq; at] -> TRan (narg t, narg seq, narg_n at)
+        | List [Atom "iu"; t] -> TInnerUnsub (narg t)
+        | List [Atom "m"; j] -> TMark (narg j)
+        | _ -> failwith "bad tout" in
+      let out = (match parse ("(" ^ impl ^ ")") with List l -> List.map tout_of l | _ -> []) in
+      (match o with
+       | TRaw -> if raw_ok ls out then Some "ok" else Some "reject:C19 (a task ran twice, early, out of sequence, after its handle was unsubscribed, or a handle reported closed too early)"
+       | _ -> None)
   | _ -> None
 
 let () =
